@@ -10,7 +10,26 @@ package formula
 import (
 	"math/big"
 	"strconv"
+
+	"github.com/MinterTeam/minter-go-node/math"
 )
+
+func init() {
+	verifUFHook = func(name string, call, arg int) (*big.Int, *big.Int) {
+		if name != "math.Pow" {
+			return nil, nil
+		}
+		calls := math.VerifPowCalls()
+		if call >= len(calls) {
+			return nil, nil
+		}
+		r := calls[call].Z
+		if arg == 1 {
+			r = calls[call].W
+		}
+		return new(big.Int).Set(r.Num()), new(big.Int).Set(r.Denom())
+	}
+}
 
 func verifUF(name string, supply, reserve *big.Int, crr uint32, amount *big.Int) (*big.Int, bool) {
 	key := "uf:formula." + name + "|" + supply.String() + "," + reserve.String() + "," + strconv.FormatUint(uint64(crr), 10) + "," + amount.String()
